@@ -29,8 +29,8 @@ CFG = dict(
                "prefix, typed writes append the whole encoding or nothing, Seek/Truncate/Reset/Clear/Grow act as specified); by induction over "
                "the operation list: every history is a history of the queue, (queue ++ accepted) = (taken ++ queue'), from an empty chunk the "
                "bytes read are a prefix of the bytes accepted, the buffer never exceeds its Limit after any step, Write reports exactly the "
-               "count appended and is short only with the limit error (too-large needs capacity > 2^42). Two refutation lemmas against copies "
-               "of the pre-fix definitions (WriteBytes stray byte, slide over the Limit). The model is tied to /repo by ~1500 operation "
+               "count appended and is short only with the limit error (too-large needs capacity > 2^42). Read on an empty queue is EOF (nil buffer included, fix 3f5a248). Two refutation lemmas "
+               "against copies of the pre-fix definitions (WriteBytes stray byte, slide over the Limit). The model is tied to /repo by ~1500 operation "
                "sequences (up to 60 ops; after EVERY op: return value, Size, Remaining, Space, Empty, cap, nil-ness, Payload compared) plus a "
                "Go-side byte-queue oracle.",
     level_note="Proof is about the hand-written model; the tie to the code is differential (strength = generator: weighted op grammar over 11 limits, "
@@ -38,6 +38,6 @@ CFG = dict(
                "deadlines), MarshalStream/UnmarshalStream, String, the heap variant chunk_heap.go, concurrent use (Chunk is not goroutine-safe). "
                "Recorded behaviours that are conservative, not violations: typed writes never fill the last byte (Available is strict); the Limit "
                "bounds Size (read + unread), so a fully read but not yet reset chunk refuses typed writes; a limited Write that would need a "
-               "reallocation refuses everything; Read on a never-written chunk returns (0, nil) instead of EOF; Write of an empty slice on a full "
+               "reallocation refuses everything; Write of an empty slice on a full "
                "limited chunk returns (0, ErrLimit).",
 )
